@@ -94,6 +94,21 @@ fn templates(thorough: bool) -> Vec<(Vec<Res>, &'static str)> {
             }
         }
     }
+    // values that are distinct but equal under some normalisation (letter case, numeric spelling, Unicode composition,
+    // prefix, type): two and three resources of one type must keep every one of them
+    let near: Vec<V> = vec![s("gp2"), s("GP2"), s("Gp2"), s("5"), s("05"), s("5.0"), i(5), f(5.0), s("true"), s("True"), V::Bool(true), s("\u{e9}"), s("e\u{301}"), s("ab"), s("abc"), s("AB"), i(1), f(1.0), s("1")];
+    for a in &near {
+        for b in &near {
+            if a.json() == b.json() {
+                continue;
+            }
+            out.push((vec![Res { ty: Some(0), props: Some(vec![("P".into(), a.clone())]) }, Res { ty: Some(0), props: Some(vec![("P".into(), b.clone())]) }], "two-near-equal"));
+        }
+    }
+    for w in near.windows(3) {
+        out.push((w.iter().map(|v| Res { ty: Some(0), props: Some(vec![("P".into(), v.clone())]) }).collect(), "three-near-equal"));
+        out.push((w.iter().rev().map(|v| Res { ty: Some(0), props: Some(vec![("P".into(), v.clone())]) }).collect(), "three-near-equal"));
+    }
     // structural edge cases: no properties, no type, empty properties, non-map properties
     out.push((vec![Res { ty: Some(0), props: None }], "no-properties"));
     out.push((vec![Res { ty: Some(0), props: Some(vec![]) }], "empty-properties"));
